@@ -38,6 +38,42 @@ def run_worker(build, poison, jobs, threads):
     return json.load(open(resf))
 
 
+def import_history(ctx, b):
+    """history = the set of library modules imported before the call (harness/import_history.py)"""
+    runs = {}
+    for th in (1, 4):
+        for order in ("late", "early"):
+            env = dict(os.environ, OMP_NUM_THREADS=str(th), OMP_WAIT_POLICY="PASSIVE", PYTHONPATH="")
+            p = subprocess.run([core.PY, os.path.join(core.VERIF, "harness", "import_history.py"), b, order],
+                               stdout=subprocess.PIPE, stderr=subprocess.PIPE, text=True, env=env, timeout=900)
+            if p.returncode != 0:
+                raise core.MachineryError("import_history %s/%d failed: %s" % (order, th, p.stderr[-1500:]))
+            line = [l for l in p.stdout.splitlines() if l.startswith("IMPORT-HISTORY ")]
+            if not line:
+                raise core.MachineryError("import_history %s/%d printed no result: %s" % (order, th, p.stdout[-500:]))
+            runs[(order, th)] = json.loads(line[-1][len("IMPORT-HISTORY "):])
+    ref = runs[("late", 1)]["stages"][0]["probes"]
+    if not all(v["nonzero"] for v in ref.values()):
+        raise core.MachineryError("the gradual-underflow probes are already flushed in a fresh process: %s" % ref)
+    ctx.notes["import_history"] = {"modules_imported": runs[("late", 1)]["modules"],
+                                   "import_errors": runs[("late", 1)]["import_errors"], "probes": sorted(ref)}
+    for (order, th), r in sorted(runs.items()):
+        for st in r["stages"]:
+            for name, v in st["probes"].items():
+                ctx.case(("import-history", order, th, name, st["after"]))
+                ctx.traces += 1
+                if v["digest"] != ref[name]["digest"]:
+                    ctx.violation({"kind": "replay", "probe": name, "threads": th, "order": order,
+                                   "modules_imported_before_the_call": st["after"],
+                                   "result_first_value": v["first"], "nonzero_values": v["nonzero"],
+                                   "fresh_process_first_value": ref[name]["first"],
+                                   "fresh_process_nonzero_values": ref[name]["nonzero"],
+                                   "how": "the same call with the same arguments returns other bits once the named module "
+                                          "has been imported into the process (harness/import_history.py <build> %s, "
+                                          "OMP_NUM_THREADS=%d)" % (order, th)},
+                                  key="purity/result-depends-on-imports/%s" % name)
+
+
 def run(ctx):
     ctx.rule = ("static: every masked-ufunc / uninitialised-allocation site of the source x every mask x every heap history "
                 "of depth <= MaxHist (TLC); dynamic: TLC-enumerated histories (pattern, <=2 prior calls, threads) x routine "
@@ -82,6 +118,7 @@ def run(ctx):
     ctx.notes["unmodelled_empty_sites"] = [s["site"] for s in sites if s["kind"] == "empty_unknown"]
     if len(modelled) != len({"%s|%s|%s" % (s["site"].split(":")[0], s["func"], s["call"]) for s in sites}):
         raise core.MachineryError("TLC did not reach every extracted site")
+    import_history(ctx, b)
     # ---- dynamic half
     import sys
     sys.path.insert(0, b)
